@@ -21,6 +21,8 @@ def main(tier, seed):
         items = core1[:280] + hist[:220]
     items += fam_tt.template_family(seed, tier)
     items += fam_tt.random_tt(seed, 30 if quick else 400)
+    from hv import fam_seq
+    items += [it for it in fam_seq.large_shapes() if it.key[1] == 'tt_odd']
     # the general program generator with time travel switched on: arbitrary typed expressions, arrays, strings, loops and
     # calls inside try bodies, defeat functions, handlers and `??` operands
     items += families.generated(seed, 70 if quick else 1500, {'tt': 0.8}, family='gentt', inputs=2 if quick else 3)
